@@ -71,6 +71,11 @@ def run_unit(unit, rng, ctx):
             data = np.where(rng.uniform(size=shape) < rng.choice([0.0, 0.3, 0.8, 0.95]), 0, data)
             if not data.any():
                 data[tuple(int(rng.integers(s)) for s in shape)] = 1
+        dt_ = [None, None, np.float32, np.int32, np.float64][int(rng.integers(5))]
+        if dt_ is not None:
+            data = data.astype(dt_)
+            if not data.any():
+                data[tuple(int(rng.integers(s_)) for s_ in data.shape)] = 1
         vol = Volume(data=data, lattice=Lattice(m))
     temp = float(np.exp(rng.uniform(np.log(1e-3), np.log(1e6))))
     what = f'grid {data.shape} mode={mode} T={temp:.4g} K'
@@ -84,15 +89,19 @@ def run_unit(unit, rng, ctx):
         ctx.case(None, False)
         return
     kT = KB_EV * temp
-    want = -kT * np.log(p[visited])
-    ctx.check(np.allclose(Fd[visited], want, rtol=1e-9, atol=1e-12 * kT), f'{what}: F != -k_B T ln(p) on visited voxels (max dev {np.abs(Fd[visited] - want).max():.3e} eV)', wit)
+    want = -kT * np.log(p[visited].astype(float))
+    # single-precision densities give single-precision free energies
+    single = np.asarray(vol.data).dtype == np.float32 or Fd.dtype == np.float32
+    rt = 2e-5 if single else 1e-9
+    ctx.count(f'density_dtype:{np.asarray(vol.data).dtype}')
+    ctx.check(np.allclose(Fd[visited], want, rtol=rt, atol=(1e-6 if single else 1e-12) * kT), f'{what}: F != -k_B T ln(p) on visited voxels (max dev {np.abs(Fd[visited] - want).max():.3e} eV)', wit)
     back = np.exp(-Fd[visited] / kT)
-    ctx.check(np.allclose(back, p[visited], rtol=1e-7, atol=0) and abs(back.sum() - 1) <= 1e-7, f'{what}: exp(-F/kT) does not recover the probabilities (sum {back.sum()!r})', wit)
+    ctx.check(np.allclose(back, p[visited], rtol=1e-4 if single else 1e-7, atol=0) and abs(back.sum() - 1) <= (1e-4 if single else 1e-7), f'{what}: exp(-F/kT) does not recover the probabilities (sum {back.sum()!r})', wit)
     # a denser voxel never has a higher free energy (all pairs, by sorting)
     order = np.argsort(data.ravel(), kind='stable')
     fs = Fd.ravel()[order]
     ds = data.ravel()[order]
-    viol = np.nonzero((np.diff(fs) > 1e-12 * np.maximum(1, np.abs(fs[:-1]))) & (np.diff(ds) > 0))[0]
+    viol = np.nonzero((np.diff(fs) > (1e-5 if single else 1e-12) * np.maximum(1, np.abs(fs[:-1]))) & (np.diff(ds) > 0))[0]
     ctx.check(len(viol) == 0, f'{what}: a denser voxel has a higher free energy (density {ds[viol[0]] if len(viol) else None} -> {ds[viol[0] + 1] if len(viol) else None})', wit)
     if (~visited).any():
         fu = Fd[~visited]
@@ -103,8 +112,10 @@ def run_unit(unit, rng, ctx):
     ctx.check(set(G.nodes) == vis_set, f'{what}: default free-energy graph has {len(G.nodes)} nodes, {len(vis_set)} voxels were visited (unvisited included: {len(set(G.nodes) - vis_set)})', wit)
     thr = float(rng.choice([1e7, float(np.quantile(Fd[visited], rng.uniform(0.2, 1.0))) + 1e-12, 1e300]))
     G2 = F.free_energy_graph(max_energy_threshold=thr, diagonal=bool(rng.integers(2)))
-    want_nodes = {tuple(int(x) for x in ix) for ix in np.argwhere(visited & (Fd < thr))}
-    ctx.check(set(G2.nodes) == want_nodes, f'{what}: graph with threshold {thr!r} has nodes {len(G2.nodes)}, expected the {len(want_nodes)} visited voxels below it', wit)
+    # an explicit threshold admits exactly the voxels below it (a user threshold above the sentinel
+    # energy of unvisited voxels - 3.4e38 for single-precision grids - admits them by choice)
+    want_nodes = {tuple(int(x) for x in ix) for ix in np.argwhere((Fd >= 0) & (Fd < thr))}
+    ctx.check(set(G2.nodes) == want_nodes, f'{what}: graph with threshold {thr!r} has nodes {len(G2.nodes)}, expected the {len(want_nodes)} voxels below it', wit)
     for node in list(G.nodes)[:5]:
         ctx.check(G.nodes[node].get('energy') == Fd[node], f'{what}: node {node} carries energy {G.nodes[node].get("energy")!r}, grid says {Fd[node]!r}', wit)
     # history: the same Volume object after its density was edited (in place or reassigned), and asked again
@@ -124,7 +135,7 @@ def run_unit(unit, rng, ctx):
             F2 = np.asarray(vol.get_free_energy(temperature=temp).data)
             v2 = dd > 0
             w2 = -kT * np.log(dd[v2] / dd.sum())
-            ctx.check(bool(np.all(np.isfinite(F2))) and np.allclose(F2[v2], w2, rtol=1e-9, atol=1e-12 * kT) and abs(np.exp(-F2[v2] / kT).sum() - 1) <= 1e-7, f'{what}: after the density of the same Volume object was edited, get_free_energy no longer equals -kT ln(p) of the current density (sum exp(-F/kT) = {np.exp(-F2[v2] / kT).sum()!r})', {'data': dd, 'temperature': temp})
+            ctx.check(bool(np.all(np.isfinite(F2))) and np.allclose(F2[v2], w2, rtol=rt, atol=(1e-6 if single else 1e-12) * kT) and abs(np.exp(-F2[v2] / kT).sum() - 1) <= (1e-4 if single else 1e-7), f'{what}: after the density of the same Volume object was edited, get_free_energy no longer equals -kT ln(p) of the current density (sum exp(-F/kT) = {np.exp(-F2[v2] / kT).sum()!r})', {'data': dd, 'temperature': temp})
             ctx.count('requery_after_density_edit')
     else:
         F3 = np.asarray(vol.get_free_energy(temperature=temp).data)
